@@ -219,6 +219,40 @@ func newTxRunner(c *Ctx, rule string) *txRunner {
 			r.inline[f.Obj] = f
 		}
 	})
+	// pure package-local helpers called by migrateApplyRun (argument parsing and the like): every call they make
+	// goes to the standard library or a builtin, so interpreting their body is exact
+	ainfo := r.apply.Info()
+	for _, call := range callsIn(r.apply.Decl.Body, true) {
+		fn := calleeOf(ainfo, call)
+		if fn == nil || fn.Pkg() == nil || fn.Pkg().Path() != pCmdapi || r.inline[fn] != nil {
+			continue
+		}
+		if sig, ok := fn.Type().(*types.Signature); !ok || sig.Recv() != nil {
+			continue
+		}
+		hf := c.FuncInfoOf(fn)
+		if hf == nil || hf.Decl.Body == nil {
+			continue
+		}
+		pure := true
+		for _, hc := range callsIn(hf.Decl.Body, true) {
+			g := calleeOf(hf.Info(), hc)
+			switch {
+			case g == nil:
+				if builtinName(hf.Info(), hc) == "" {
+					if tv, ok := hf.Info().Types[hc.Fun]; !ok || !tv.IsType() {
+						pure = false
+					}
+				}
+			case g.Pkg() == nil:
+			case strings.Contains(strings.SplitN(g.Pkg().Path(), "/", 2)[0], "."):
+				pure = false // a module path: not the standard library
+			}
+		}
+		if pure {
+			r.inline[fn] = hf
+		}
+	}
 	lf := c.NamedType(pMigrate, "LocalFile")
 	if lf == nil {
 		c.Unresolved(rule, "type migrate.LocalFile")
